@@ -120,7 +120,7 @@ func H_reset() {
 		vAssume(int((uint64(nh)+1)%uint64(n2)) == vParam("prim2"))
 	}
 	for _, c := range e.cached {
-		vAssume(int(c.vidx) != my2) // nobody forges the node's own payloads
+		vAssume(int(c.vidx) != my2 || e.watchFlag) // nobody forges the node's own payloads
 	}
 	ts := vU64("reset.ts")
 	vAssume(ts < 1<<62)
